@@ -231,7 +231,7 @@ class WrapperDelegation(Unit):
 
 
 def _own_units(tier):
-    us = [Glue(), WrapperDelegation()]
+    us = [Glue(), WrapperDelegation(), c10.RsaHelperCall()]
     for u, nm in ((c01.CipherFile(), 'C18.stream.file'), (c01.CipherSocket(), 'C18.stream.socket'), (c10.EncStep(), 'C18.installation')):
         u.prop, u.name = 'C18', nm
         us.append(u)
